@@ -48,7 +48,29 @@ def make_input(rng, kind=None):
     """(text, description) of one input structure."""
     from .. import fragments, multiconf, pdbio, sources
     kind = kind or rng.choice(("cutout", "cluster", "cluster", "chimera", "small-file", "multiconf", "unknown-element",
-                               "ligand", "polyamine", "protein", "free-ligand"))
+                               "ligand", "polyamine", "protein", "free-ligand", "late-groups"))
+    if kind == "late-groups":
+        # two or three MODELs; several ionizable residues are cut back to ALA in the first one, so their
+        # groups exist in later conformations only (whatever collects them must do so in a fixed order)
+        base = [r for r in sources.random_small_structure(rng, 80, 500) if r.raw is not None or r.alt in (" ", "A")]
+        base = [multiconf._blank_alt(r) if r.raw is None else r for r in base]
+        tit = sorted({(r.chain, r.resnum, r.icode) for r in base if r.raw is None and r.tag == "ATOM  "
+                      and r.resn in ("ASP", "GLU", "HIS", "TYR", "LYS", "ARG", "CYS")})
+        cut = set(rng.sample(tit, min(len(tit), rng.choice((2, 3, 4, 6)))))
+        out = []
+        for m in range(1, rng.choice((2, 3)) + 1):
+            out.append(pdbio.raw("MODEL     %4d" % m))
+            for r in base:
+                if r.raw is not None:
+                    continue
+                if m == 1 and (r.chain, r.resnum, r.icode) in cut:
+                    if r.aname() not in ("N", "CA", "C", "O", "CB"):
+                        continue
+                    r = r.copy()
+                    r.resn = "ALA"
+                out.append(r)
+            out.append(pdbio.raw("ENDMDL"))
+        return pdbio.dump(out), {"input": "late-groups", "cut": len(cut)}
     if kind == "free-ligand":
         # a ligand on its own (symmetric molecules have groups with exactly equal pKa)
         fr = rng.choice(("pentamine", "hexamine", "triamine", "ethylenediamine", "methylphosphate", "hexamine"))
@@ -250,7 +272,7 @@ def run_history(case, rng, viol, counts, classes):
             text = inputs[i][0]
             key = (i, dumps(o))
             mode = rng.choice(("stream", "path", "stream", "main", "zip"))
-            if mode == "main" and any(x in o for x in ("-p", "-i", "-c")):
+            if mode == "main" and "-c" in o:      # a chain the other files lack would end the invocation early
                 mode = "stream"
             # change the working directory and the heap between calls
             wd = os.path.join(util.worker_tmp(), "wd%d" % rng.randrange(4))
